@@ -84,8 +84,20 @@ package account
 //@   modifies allbut("rawWrites", SafeAccount)
 //@ func NewAssetCodeLog   trusted
 //@   modifies allbut("rawWrites", SafeAccount)
-//@ func NewAssetCodeStateLog   trusted
+// the profile-state log: the old value is a string only if the key existed; a key created by the change is journalled as
+// absentProfileVal and undo removes the key again instead of leaving it behind with an empty value, which would change the asset's
+// encoding and with it the AssetCodeRoot log of the block (D35)
+//@ func NewAssetCodeStateLog
+//@   props C07
+//@   requires processor != nil
 //@   modifies allbut("rawWrites", SafeAccount)
+//@   ensures result1 == nil && asset != nil && has(asset.Profile, key) ==> typeIs(result0.OldVal, string)
+//@   ensures result1 == nil && (asset == nil || !has(asset.Profile, key)) ==> typeIs(result0.OldVal, absentProfileVal)
+//@ func undoAssetCodeState
+//@   props C07
+//@   requires c != nil && processor != nil
+//@   assert @call SetAssetCodeState#0: typeIs(c.OldVal, string)
+//@   assert @call SetAssetCode#0: typeIs(c.OldVal, absentProfileVal) && !has(asset.Profile, extra.Key)
 //@ func NewAssetCodeTotalSupplyLog   trusted
 //@   modifies allbut("rawWrites", SafeAccount)
 //@ func NewAssetIdLog   trusted
